@@ -340,11 +340,14 @@ func (w *walker) check(chanColor map[int]openrgb.Color) {
 				why = append(why, "active (sounding from the keyboard)")
 			}
 		}
+		onCurrent := w.r.ext[[2]int{w.r.ch, x}]
 		for cp := range w.r.ext {
 			if cp[1] == x {
 				if cp[0] == w.r.ch {
 					ok = append(ok, col(cExternal))
 					why = append(why, "external (MIDI input, current channel)")
+				} else if onCurrent {
+					continue // a pitch sounding on the current channel shows the external colour, whatever other channels play
 				} else if cc, known := chanColor[cp[0]]; known {
 					ok = append(ok, cc)
 					why = append(why, fmt.Sprintf("channel-%d colour (MIDI input, other channel)", cp[0]+1))
@@ -496,6 +499,17 @@ func runLayout(res *vutil.Result, name string, leds []string, tier string) {
 								w.midiIn(midi.NoteEvent(midi.NoteOn, oth, p2, 90), "midi NoteOn other/61")
 								w.r.ext[[2]int{int(oth), int(p2)}] = true
 								w.check(chanColor)
+								// the same pitch also on the neighbouring lower and higher channel: the current channel's highlight wins
+								lowc, highc := byte((w.r.ch+15)%16), byte((w.r.ch+1)%16)
+								w.midiIn(midi.NoteEvent(midi.NoteOn, lowc, p1, 90), "midi NoteOn ch-1/60")
+								w.r.ext[[2]int{int(lowc), int(p1)}] = true
+								w.midiIn(midi.NoteEvent(midi.NoteOn, highc, p1, 90), "midi NoteOn ch+1/60")
+								w.r.ext[[2]int{int(highc), int(p1)}] = true
+								w.check(chanColor)
+								w.midiIn(midi.NoteEvent(midi.NoteOff, lowc, p1, 0), "midi NoteOff ch-1/60")
+								delete(w.r.ext, [2]int{int(lowc), int(p1)})
+								w.midiIn(midi.NoteEvent(midi.NoteOff, highc, p1, 0), "midi NoteOff ch+1/60")
+								delete(w.r.ext, [2]int{int(highc), int(p1)})
 								w.midiIn(midi.NoteEvent(midi.NoteOff, cur, p1, 0), "midi NoteOff cur/60")
 								delete(w.r.ext, [2]int{int(cur), int(p1)})
 								w.check(chanColor)
